@@ -129,12 +129,12 @@ func (o outcome) key() string {
 
 // edge of the extracted automaton
 type fsmEdge struct {
-	role     int8
-	from, to int8
-	origin   string // function in which the target state constant is written
-	pos      token.Pos
-	entries  map[string]bool
-	trusted  bool // all occurrences were on trusted paths
+	role      int8
+	from, to  int8
+	origin    string // function in which the target state constant is written
+	pos       token.Pos
+	entries   map[string]bool
+	trusted   bool            // all occurrences were on trusted paths
 	untrusted map[string]bool // entries through which the edge is taken on an untrusted path
 }
 
@@ -154,38 +154,39 @@ type memoEntry struct {
 }
 
 type frameCtx struct {
-	tag   string // model type of the message being sent in this frame, if any
-	entry string
+	tag    string // model type of the message being sent in this frame, if any
+	entry  string
+	inOnce bool // executing inside the close-once body
 }
 
 type fsm struct {
 	p *core.Program
 	r *core.Report
 
-	conn        *types.Named
-	fState      *types.Var
-	fTimer      *types.Var
-	fReader     *types.Var
-	fOnce       *types.Var
-	fRole       *types.Var
-	fSKI        *types.Var
-	stateType   *types.Named
-	states      []*types.Const // index -> constant
-	stateIdx    map[int64]int8
-	roleClient  constant.Value
-	roleServer  constant.Value
+	conn       *types.Named
+	fState     *types.Var
+	fTimer     *types.Var
+	fReader    *types.Var
+	fOnce      *types.Var
+	fRole      *types.Var
+	fSKI       *types.Var
+	stateType  *types.Named
+	states     []*types.Const // index -> constant
+	stateIdx   map[int64]int8
+	roleClient constant.Value
+	roleServer constant.Value
 
-	mWrite, mCloseData, mIsClosed                             *types.Func
+	mWrite, mCloseData, mIsClosed                              *types.Func
 	mSetup, mClosedCB, mReportID, mPaired, mAuto, mAllow, mUpd *types.Func
-	mDeliver                                                  *types.Func
+	mDeliver                                                   *types.Func
 
 	memo    map[string]*memoEntry
 	iter    int
 	changed bool
 
-	edges   map[string]*fsmEdge
-	effects map[string]*effectRec
-	spawned map[*ssa.Function]bool
+	edges    map[string]*fsmEdge
+	effects  map[string]*effectRec
+	spawned  map[*ssa.Function]bool
 	problems []fsmProblem // fail-closed conditions met during interpretation
 
 	curEntry string
@@ -366,7 +367,7 @@ func (f *fsm) run(fn *ssa.Function, cfg cfgT, args []aval, ctx frameCtx, depth i
 		return []outcome{{cfg: cfg}}
 	}
 	var kb strings.Builder
-	fmt.Fprintf(&kb, "%s|%v|%s|%s|", fn.String(), cfg, ctx.tag, ctx.entry)
+	fmt.Fprintf(&kb, "%s|%v|%s|%s|%v|", fn.String(), cfg, ctx.tag, ctx.entry, ctx.inOnce)
 	for _, a := range args {
 		kb.WriteString(a.key())
 		kb.WriteByte(';')
@@ -900,6 +901,11 @@ func (f *fsm) call(fn *ssa.Function, callInstr *ssa.Call, c *ssa.CallCommon, t *
 	// sync.Once.Do on the close-once
 	if callee := c.StaticCallee(); callee != nil && core.CalleeName(c) == "(*sync.Once).Do" {
 		if f.connFieldAddr(c.Args[0]) == f.fOnce {
+			if ctx.inOnce {
+				// sync.Once.Do called from inside its own function: Do blocks on the Once's mutex forever
+				f.problem("C11.R5 close-once-not-reentered", "re-entrant shutdownOnce.Do via "+shortFn(f.p.FnName(fn)), "the close-once is entered again from inside its own body (sync.Once.Do is not re-entrant): this goroutine deadlocks holding the Once, every other closer blocks behind it, and the connection end is never reported", pos)
+				return nil
+			}
 			if t.cfg.closed {
 				return []*tuple{t}
 			}
@@ -910,7 +916,9 @@ func (f *fsm) call(fn *ssa.Function, callInstr *ssa.Call, c *ssa.CallCommon, t *
 				return []*tuple{t}
 			}
 			var out []*tuple
-			for _, o := range f.run(body, t.cfg, nil, ctx, depth+1) {
+			octx := ctx
+			octx.inOnce = true
+			for _, o := range f.run(body, t.cfg, nil, octx, depth+1) {
 				n := t.clone()
 				n.cfg = o.cfg
 				out = append(out, n)
